@@ -12,6 +12,7 @@ use frost_core::serde::de::DeserializeOwned;
 use frost_core::serde::Serialize;
 use serde_json::json;
 
+use crate::c12::scenario_json_members_required;
 use crate::common::*;
 use crate::rng::TestRng;
 use crate::{scn, Scenario};
@@ -22,6 +23,9 @@ pub fn scenarios() -> Vec<Scenario> {
         scn!(scenario_signing_resume, 3),
         scn!(scenario_refresh_dkg_resume, 3),
         scn!(scenario_large_state, 1),
+        scn!(scenario_boundary_state_resume, 3),
+        // a stored document that lost a member is refused, never completed with defaults (seeded2/C03_3)
+        scn!(scenario_json_members_required, 1),
     ]
 }
 
@@ -281,6 +285,146 @@ pub fn scenario_large_state<C: Suite>(rng: &mut TestRng, _p: &Params, notes: &mu
         let kp = need(KeyPackage::<C>::try_from(sh.clone()), "KeyPackage::try_from")?;
         let back = persist::<_, C>(&kp, st, "KeyPackage", |x| x.serialize(), |b| KeyPackage::<C>::deserialize(b))?;
         same(&back, &kp, "restored key package equals the stored one")?;
+    }
+    Ok(())
+}
+
+/// State that contains scalars from the EDGES of the scalar range (`common::boundary_scalars`: order-1, order-2, 2^top, 2^top+1, 1, 2,
+/// ...), which random sampling never produces (the top sliver [2^top, order) of ed25519 has probability 2^-125), in every place a
+/// stored scalar can sit: the participant's identifier, its polynomial coefficients after part one of key generation and of the
+/// distributed refresh (`round1::SecretPackage::new` is the public constructor for callers that store the package themselves),
+/// the secret share after part two, the signing share of a key package, both nonces, the signature shares the coordinator
+/// holds.  Every state is stored and read back (binary / JSON) and the next step is run from memory and from the restored copy:
+/// the restored state is accepted, equal, and gives the identical output.  (The other participants are honest random ones.)
+pub fn scenario_boundary_state_resume<C: Suite>(rng: &mut TestRng, p: &Params, notes: &mut Notes) -> Verdict {
+    let st = pick_storage(rng, notes);
+    // a small group around the participant `me` whose identifier is a boundary scalar (60 %) or the first generated one
+    let n = rng.range(2, 4.min(p.ids.len().max(2))) as u16;
+    let t = rng.range(2, n as usize) as u16;
+    let mut ids = make_ids::<C>(&p.ids)?;
+    ids.truncate(n as usize);
+    if ids.len() < n as usize {
+        return skip("not enough identifiers");
+    }
+    let mut id_name = "generated";
+    if rng.chance(60) {
+        let (name, s) = pick_boundary::<C>(rng, true);
+        let id = need(Id::<C>::new(s), "Identifier::new")?;
+        if !ids.contains(&id) {
+            ids[0] = id;
+            id_name = name;
+        }
+    }
+    let me = ids[0];
+    let coeffs: Vec<(&str, Sc<C>)> = (0..t).map(|_| pick_boundary::<C>(rng, true)).collect();
+    notes.insert("max_signers".into(), json!(n));
+    notes.insert("min_signers".into(), json!(t));
+    notes.insert("participant".into(), json!(id_name));
+    notes.insert("participant_hex".into(), json!(id_hex::<C>(&me)));
+    notes.insert("coefficients".into(), json!(coeffs.iter().map(|c| c.0).collect::<Vec<_>>()));
+    let cvals: Vec<Sc<C>> = coeffs.iter().map(|c| c.1).collect();
+    let commitment = frost_core::keys::VerifiableSecretSharingCommitment::<C>::new(
+        cvals.iter().map(|c| frost_core::keys::CoefficientCommitment::<C>::new(base_mul::<C>(c))).collect(),
+    );
+
+    // ---- key generation: me holds the boundary polynomial, the others are honest
+    let mut r1_others = BTreeMap::new();
+    let mut s1_others = BTreeMap::new();
+    for id in ids.iter().skip(1) {
+        let (s, pk) = need(dkg::part1::<C, _>(*id, n, t, &mut *rng), "dkg::part1")?;
+        s1_others.insert(*id, s);
+        r1_others.insert(*id, pk);
+    }
+    let s1 = dkg::round1::SecretPackage::<C>::new(me, cvals.clone(), commitment.clone(), t, n);
+    let what = format!("dkg::round1::SecretPackage (identifier {id_name}, coefficients {:?})", coeffs.iter().map(|c| c.0).collect::<Vec<_>>());
+    let s1_restored = persist::<_, C>(&s1, st, &what, |x| x.serialize(), |b| dkg::round1::SecretPackage::<C>::deserialize(b))?;
+    same(&s1_restored, &s1, "restored round-one secret package equals the stored one")?;
+    let (s2_mem, out_mem) = need(dkg::part2::<C>(s1.clone(), &r1_others), "dkg::part2 from memory")?;
+    let (s2, out) = must(dkg::part2::<C>(s1_restored, &r1_others), "part2 from the restored round-one secret package")?;
+    same(&s2, &s2_mem, "part2 from restored state returns the same round-two secret package")?;
+    same(&out, &out_mem, "part2 from restored state returns the same round-two packages")?;
+    // the round-two packages travel and are stored by their receivers: f_me(x) for each peer x
+    for (to, pk) in &out_mem {
+        let back = persist::<_, C>(pk, st, "dkg::round2::Package", |x| x.serialize(), |b| dkg::round2::Package::<C>::deserialize(b))?;
+        same(&back, pk, &format!("restored round-two package for {} equals the stored one", id_hex::<C>(to)))?;
+    }
+    let s2_restored = persist::<_, C>(&s2_mem, st, "dkg::round2::SecretPackage", |x| x.serialize(), |b| dkg::round2::SecretPackage::<C>::deserialize(b))?;
+    same(&s2_restored, &s2_mem, "restored round-two secret package equals the stored one")?;
+    // part three needs the peers' shares for me: they have to accept my round-one package, which needs a proof of knowledge
+    // that only part1 can make; so the peers' part2 is fed a package list WITHOUT checking me: evaluate their polynomials directly
+    let mut r2_for_me = BTreeMap::new();
+    for (id, s) in &s1_others {
+        let share = frost_core::keys::SigningShare::<C>::from_coefficients(&s.coefficients(), me);
+        r2_for_me.insert(*id, dkg::round2::Package::<C>::new(share));
+    }
+    let fin_mem = need(dkg::part3::<C>(&s2_mem, &r1_others, &r2_for_me), "dkg::part3 from memory")?;
+    let fin = must(dkg::part3::<C>(&s2_restored, &r1_others, &r2_for_me), "part3 from the restored round-two secret package")?;
+    same(&fin.0, &fin_mem.0, "part3 from restored state returns the same key package")?;
+    same(&fin.1, &fin_mem.1, "part3 from restored state returns the same public key package")?;
+    let kp_back = persist::<_, C>(&fin_mem.0, st, "KeyPackage", |x| x.serialize(), |b| KeyPackage::<C>::deserialize(b))?;
+    same(&kp_back, &fin_mem.0, "restored key package equals the stored one")?;
+    let pkp_back = persist::<_, C>(&fin_mem.1, st, "PublicKeyPackage", |x| x.serialize(), |b| PublicKeyPackage::<C>::deserialize(b))?;
+    same(&pkp_back, &fin_mem.1, "restored public key package equals the stored one")?;
+
+    // ---- distributed refresh: same polynomial shape with zero constant term and the commitment without its first entry
+    if t >= 2 {
+        let mut rc = cvals.clone();
+        rc[0] = zero::<C>();
+        let rcomm = frost_core::keys::VerifiableSecretSharingCommitment::<C>::new(
+            rc.iter().skip(1).map(|c| frost_core::keys::CoefficientCommitment::<C>::new(base_mul::<C>(c))).collect(),
+        );
+        let mut rr1 = BTreeMap::new();
+        for id in ids.iter().skip(1) {
+            let (_, pk) = need(refresh::refresh_dkg_part1::<C, _>(*id, n, t, &mut *rng), "refresh_dkg_part1")?;
+            rr1.insert(*id, pk);
+        }
+        let rs1 = dkg::round1::SecretPackage::<C>::new(me, rc, rcomm, t, n);
+        let rs1_restored = persist::<_, C>(&rs1, st, "refresh round-one SecretPackage (boundary coefficients)", |x| x.serialize(), |b| dkg::round1::SecretPackage::<C>::deserialize(b))?;
+        same(&rs1_restored, &rs1, "restored refresh round-one secret package equals the stored one")?;
+        let mem = need(refresh::refresh_dkg_part2::<C>(rs1, &rr1), "refresh_dkg_part2 from memory")?;
+        let again = must(refresh::refresh_dkg_part2::<C>(rs1_restored, &rr1), "refresh_dkg_part2 from restored state")?;
+        same(&again.0, &mem.0, "refresh_dkg_part2 from restored state returns the same secret package")?;
+        same(&again.1, &mem.1, "refresh_dkg_part2 from restored state returns the same packages")?;
+        let rs2_restored = persist::<_, C>(&mem.0, st, "refresh round-two SecretPackage", |x| x.serialize(), |b| dkg::round2::SecretPackage::<C>::deserialize(b))?;
+        same(&rs2_restored, &mem.0, "restored refresh round-two secret package equals the stored one")?;
+    }
+
+    // ---- signing: key package with a boundary signing share, boundary nonces
+    let (share_name, share_s) = pick_boundary::<C>(rng, true);
+    let (h_name, h) = pick_boundary::<C>(rng, true);
+    let (b_name, b) = pick_boundary::<C>(rng, true);
+    notes.insert("signing_share".into(), json!(share_name));
+    notes.insert("nonces".into(), json!([h_name, b_name]));
+    let share = frost_core::keys::SigningShare::<C>::new(share_s);
+    let kp = KeyPackage::<C>::new(me, share, frost_core::keys::VerifyingShare::<C>::from(share), *fin_mem.1.verifying_key(), t);
+    let nonces = fc::round1::SigningNonces::<C>::from_nonces(fc::round1::Nonce::<C>::from_scalar(h), fc::round1::Nonce::<C>::from_scalar(b));
+    let kp2 = persist::<_, C>(&kp, st, &format!("KeyPackage (identifier {id_name}, signing share {share_name})"), |x| x.serialize(), |b| KeyPackage::<C>::deserialize(b))?;
+    let n2 = persist::<_, C>(&nonces, st, &format!("SigningNonces (hiding {h_name}, binding {b_name})"), |x| x.serialize(), |b| fc::round1::SigningNonces::<C>::deserialize(b))?;
+    same(&kp2, &kp, "restored key package equals the stored one")?;
+    same(&n2, &nonces, "restored signing nonces equal the stored ones")?;
+    // the co-signers are the peers with their key-generation outcome not needed: any commitments will do for them
+    let mut commitments = BTreeMap::new();
+    commitments.insert(me, *nonces.commitments());
+    for id in ids.iter().skip(1).take(t as usize - 1) {
+        let (_, c) = fc::round1::commit::<C, _>(&share, rng);
+        commitments.insert(*id, c);
+    }
+    let package = fc::SigningPackage::<C>::new(commitments, &p.message);
+    let pkg2 = persist::<_, C>(&package, st, "SigningPackage", |x| x.serialize(), |b| fc::SigningPackage::<C>::deserialize(b))?;
+    same(&pkg2, &package, "restored signing package equals the stored one")?;
+    let share_mem = need(fc::round2::sign::<C>(&package, &nonces, &kp), "round2::sign from memory")?;
+    let share_again = must(fc::round2::sign::<C>(&pkg2, &n2, &kp2), "round2::sign from restored nonces and key package")?;
+    check(
+        share_again.serialize() == share_mem.serialize(),
+        "round2::sign from restored state returns the same signature share",
+        hex(&share_mem.serialize()),
+        hex(&share_again.serialize()),
+    )?;
+    // the coordinator keeps signature shares until all have arrived
+    for (zname, z) in [pick_boundary::<C>(rng, false), pick_boundary::<C>(rng, false), ("the share just made", sigshare_scalar::<C>(&share_mem)?)] {
+        let enc = scalar_bytes::<C>(&z);
+        let back = must(fc::round2::SignatureShare::<C>::deserialize(&enc), &format!("SignatureShare::deserialize of a stored share with value {zname}"))?;
+        check(back.serialize() == enc, "a restored signature share equals the stored one", hex(&enc), hex(&back.serialize()))?;
     }
     Ok(())
 }
